@@ -1,7 +1,11 @@
 package sd
 
 import (
+	"bytes"
+	"encoding/binary"
 	"fmt"
+	"github.com/RoaringBitmap/roaring/roaring64"
+	"github.com/vmihailenco/msgpack/v5"
 	"io"
 	"math"
 	"os"
@@ -557,5 +561,76 @@ func (r *Runner) VecKeysProj() {
 		}
 		r.TW.Emit("VecKeys", M{"p": p.Name, "kind": kind, "fixed": fixed, "trigger": trigger, "entry": b2i(p.Type == models.IndexTypeVectorVamana),
 			"v": vs, "q": qs, "trained": b2i(stored)})
+	}
+}
+
+// TextIxProj logs the persisted state of every text index (read through hook
+// H1): the recorded corpus size, the document entries (node, length, term
+// frequencies) and the term sets.
+func (r *Runner) TextIxProj() {
+	for _, p := range r.Cfg.Props {
+		if p.Type != models.IndexTypeText {
+			continue
+		}
+		type docItem struct {
+			Terms map[string]struct {
+				Frequency int `msgpack:"frequency"`
+			} `msgpack:"terms"`
+			Length int `msgpack:"length"`
+		}
+		n := -1
+		docs := []M{}
+		sets := []M{}
+		var perr error
+		err := r.Shard.VerifDB().Read(func(bm diskstore.BucketManager) error {
+			b, err := bm.Get(fmt.Sprintf("index/%s/%s", models.IndexTypeText, p.Name))
+			if err != nil {
+				return err
+			}
+			return b.ForEach(func(k, v []byte) error {
+				switch {
+				case string(k) == "_numDocuments":
+					n = int(conversion.BytesToUint64(v))
+				case len(k) == 9 && k[0] == 'd':
+					var d docItem
+					if e := msgpack.Unmarshal(v, &d); e != nil {
+						perr = e
+						return nil
+					}
+					tf := M{}
+					for t, x := range d.Terms {
+						tf[TermName(t)] = x.Frequency // (terms carry the model's names)
+					}
+					docs = append(docs, M{"n": int(binary.LittleEndian.Uint64(k[1:])), "len": d.Length, "tf": tf})
+				case len(k) >= 2 && k[0] == 't' && k[len(k)-1] == 's':
+					set := roaring64.New()
+					if _, e := set.ReadFrom(bytes.NewReader(v)); e != nil {
+						perr = e
+						return nil
+					}
+					ids := []int{}
+					it := set.Iterator()
+					for it.HasNext() {
+						ids = append(ids, int(it.Next()))
+					}
+					sets = append(sets, M{"t": TermName(string(k[1 : len(k)-1])), "ids": ids})
+				}
+				return nil
+			})
+		})
+		if err != nil {
+			// (an index that was never written has no bucket yet)
+			n = 0
+		}
+		if perr != nil {
+			r.obsErr("TextIx", perr)
+			continue
+		}
+		if n < 0 {
+			n = 0
+		}
+		sort.Slice(docs, func(a, b int) bool { return docs[a]["n"].(int) < docs[b]["n"].(int) })
+		sort.Slice(sets, func(a, b int) bool { return sets[a]["t"].(string) < sets[b]["t"].(string) })
+		r.TW.Emit("TextIx", M{"p": p.Name, "n": n, "docs": docs, "sets": sets})
 	}
 }
